@@ -2079,15 +2079,19 @@ class PPEnumFieldType(FieldType):
         if by_value_cache is None:
             self._verify_fmt_modifier(fmt_modifier)
 
-        if value not in by_value_cache:
+        # (1, 1.0 and True are the same dictionary key but are printed
+        # differently: the type is a part of the key)
+        key = (type(value), value)
+        if key not in by_value_cache:
             self._make_text_cache_for_val(
                 value, field_palette, by_fmt_cache)
 
-        return by_value_cache[value]
+        return by_value_cache[key]
 
     def _make_text_cache_for_val(self, value, cp, by_fmt_cache) -> None:
         # populate self._cache for value
         # ('by_fmt_cache' is part of self._cache)
+        key = (type(value), value)
         try:
             name, syntax_name = self.enum_values[value]
             val_len = self.max_val_len
@@ -2097,9 +2101,9 @@ class PPEnumFieldType(FieldType):
                 # but a single None
                 text_and_alignment = super().make_desired_cell_ch_chunks(
                     value, None, cp)
-                by_fmt_cache['val'][value] = text_and_alignment
-                by_fmt_cache['name'][value] = text_and_alignment
-                by_fmt_cache['full'][value] = text_and_alignment
+                by_fmt_cache['val'][key] = text_and_alignment
+                by_fmt_cache['name'][key] = text_and_alignment
+                by_fmt_cache['full'][key] = text_and_alignment
                 return
             name, syntax_name = self.enum_missing_value
             val_len = max(self.max_val_len, len(str(value)))
@@ -2108,10 +2112,10 @@ class PPEnumFieldType(FieldType):
 
         # 'val' format
         val_text_items, align = super().make_desired_cell_ch_chunks(value, None, cp)
-        by_fmt_cache['val'][value] = (val_text_items, align)
+        by_fmt_cache['val'][key] = (val_text_items, align)
 
         # 'name' format
-        by_fmt_cache['name'][value] = ([color_fmt(name)], align)
+        by_fmt_cache['name'][key] = ([color_fmt(name)], align)
 
         # 'full' format
         full_text_items = []
@@ -2122,7 +2126,7 @@ class PPEnumFieldType(FieldType):
         full_text_items.extend(val_text_items)
         full_text_items.append(cp.text(" "))
         full_text_items.append(color_fmt(name))
-        by_fmt_cache['full'][value] = (full_text_items, ALIGN_LEFT)
+        by_fmt_cache['full'][key] = (full_text_items, ALIGN_LEFT)
 
     def get_cell_text_len(self, value, fmt_modifier) -> int:
         """Calculate length of text representation of the value."""
@@ -2131,13 +2135,15 @@ class PPEnumFieldType(FieldType):
         if by_val_lenghs is None:
             self._verify_fmt_modifier(fmt_modifier)
 
-        if value not in by_val_lenghs:
+        key = (type(value), value)
+        if key not in by_val_lenghs:
             self._make_len_cache_for_val(value)
 
-        return by_val_lenghs[value]
+        return by_val_lenghs[key]
 
     def _make_len_cache_for_val(self, value):
         # populate self._cache_lengths for value
+        key = (type(value), value)
         try:
             name, _ = self.enum_values[value]
             val_len = self.max_val_len
@@ -2146,22 +2152,22 @@ class PPEnumFieldType(FieldType):
                 # special case: cell will not contain enum's value and name,
                 # but a single None
                 text_len = len(str(None))
-                self._cache_lengths['val'][value] = text_len
-                self._cache_lengths['name'][value] = text_len
-                self._cache_lengths['full'][value] = text_len
+                self._cache_lengths['val'][key] = text_len
+                self._cache_lengths['name'][key] = text_len
+                self._cache_lengths['full'][key] = text_len
                 return
             name, _ = self.enum_missing_value
             val_len = max(self.max_val_len, len(str(value)))
 
         # 'val' format
-        self._cache_lengths['val'][value] = val_len
+        self._cache_lengths['val'][key] = val_len
 
         # 'name' format
         name_len = len(str(name))
-        self._cache_lengths['name'][value] = name_len
+        self._cache_lengths['name'][key] = name_len
 
         # 'full' format
-        self._cache_lengths['full'][value] = val_len + 1 + name_len
+        self._cache_lengths['full'][key] = val_len + 1 + name_len
 
     def is_fmt_modifier_ok(self, fmt_modifier) -> (bool, str):
         """Chek if fmt_modifier is correct."""
